@@ -119,6 +119,16 @@ def handle (m : String) (j : Json) : Except String Json := do
   | "c10.ctx" =>
     let ps ← (← getArr j "parents").mapM parseParent
     pure (Json.arr ((ctxRun (none : Option (Option (String × Nat) × Unit)) ps.toList).map Json.bool).toArray)
+  | "c10.resave_rows" =>
+    let pn ← (← getArr j "pn").mapM (fun (r : Json) => do
+      match (← r.getArr?).toList with
+      | [n, t, i] => pure ((← n.getStr?), (← t.getStr?), (← i.getNat?))
+      | _ => throw "bad pn entry")
+    let pt ← (← getArr j "pt").mapM parsePairN
+    let hist ← (← getArr j "hist").mapM (fun (v : Json) => v.getStr?)
+    let rows := resaveRows pn.toList pt.toList hist.toList
+    pure (Json.arr (rows.map (fun x => Json.arr #[Json.str x.1,
+      (match x.2.1 with | some n => Json.str n | none => Json.null), natJ x.2.2])).toArray)
   | "c10.hist_tables" =>
     let names ← (← getArr j "names").mapM parsePairS
     let refs ← (← getArr j "refs").mapM (fun (v : Json) => v.getStr?)
